@@ -179,7 +179,7 @@ claim("C10",
       "HashSet<Ident> is a shim with a ghost set view; in resolve_guards lookup_in is external (it is under contract in name_lookup, where Module::lookup is external: the mutual recursion is cut at the contracts, its termination is not proved); resolve_ident_wildcard, resolve_ident_fallback, ambiguous_error, expr_of_func are "
       "external; the drain loop over named parameters is replaced by its contract (stated in the evidence).")
 
-prop("C09", ["ident_quote", "ids_names", "rel_names", "ident_regex", "dialect_flags", "literals", "select_shape", "interp_ident"], select={"select_shape": lambda n: n.split(".", 1)[1] in ("SS2a", "SS2b", "SS2c", "translate_select_item.safety"), "dialect_flags": lambda n: n.rsplit(".", 1)[1] == "ident_quote", "literals": lambda n: n.split(".", 1)[1] in ("FM1", "FM2", "format_slice.safety")},
+prop("C09", ["ident_quote", "ids_names", "rel_names", "ident_regex", "dialect_flags", "literals", "select_shape", "interp_ident", "lex_end_expr"], select={"lex_end_expr": lambda n: ".continues." in n, "select_shape": lambda n: n.split(".", 1)[1] in ("SS2a", "SS2b", "SS2c", "translate_select_item.safety"), "dialect_flags": lambda n: n.rsplit(".", 1)[1] == "ident_quote", "literals": lambda n: n.split(".", 1)[1] in ("FM1", "FM2", "format_slice.safety")},
      not_covered="content of the keyword tables; freshness of generated names against user names that are not registered yet; "
                  "the order in which assign_names visits the declarations (a user table named like a generated name is only protected if it is visited first)")
 claim("C09",
@@ -190,7 +190,7 @@ claim("C09",
       "loaded id (IG1-3, SK1); names of one generator are pairwise distinct (NG1); at a pipeline split a re-declared column gets a name different from "
       "every name given at that split and the name is recorded (AS1a-c); every CTE gets a name different from the names of all CTEs named before it and every "
       "relation instance of a SELECT an alias different from those given before in that SELECT, while a name / alias that is present and unused is kept - the "
-      "user's table keeps its name (rel_names AN1-4, RN1-4; partial correctness: termination of the two regenerate-until-unused loops is not proved). the pattern of valid_ident() - compiled from the source literal into a spec function on every run - matches only `*` and texts of lower-case letters, digits, `_`, `$` that do not start with a digit, and matches every ordinary lower-case name (ident_regex RX1-3, for all character sequences). NOT proved: content of the keyword tables, capture of not-yet-registered "
+      "user's table keeps its name (rel_names AN1-4, RN1-4; partial correctness: termination of the two regenerate-until-unused loops is not proved). the pattern of valid_ident() - compiled from the source literal into a spec function on every run - matches only `*` and texts of lower-case letters, digits, `_`, `$` that do not start with a digit, and matches every ordinary lower-case name (ident_regex RX1-3, for all character sequences). a keyword or literal word ends only where a bare name cannot continue: letters (also outside ASCII), digits and `_` continue it, so a column called `importé` or `nullable` is lexed as that name (lex_end_expr EE.continues rows). NOT proved: content of the keyword tables, capture of not-yet-registered "
       "user names.",
       "regex, HashSet, OnceLock tables, dyn DialectHandler, sqlparser Ident constructors, format! are shims by contract.")
 
@@ -233,7 +233,7 @@ def _safety(name):
         return True
     return lab.endswith(".safety") or lab.endswith(".overflow") or lab.endswith(".div0") or lab.endswith(".decreases") or lab.endswith(".unreachable") or lab.endswith(".unwrap") or lab.endswith(".index") or lab.endswith(".loop_exit") or lab.endswith(".precondition") \
         or lab in ("SU2", "TR3s", "TR3e", "TR3o", "SB1", "SB2", "TS0", "WF1b", "XA1", "LN1", "TU1", "TU2", "SR1", "SR2", "SQ1", "SQ2", "EN1", "EN2", "EN3", "DL1", "NB1", "WS1", "IP1", "NB2") \
-        or name in ("tuple_helpers.TE1", "tuple_helpers.TM1", "tuple_helpers.TZ1", "tuple_helpers.EQ1", "tuple_helpers.EQ2", "tuple_helpers.TI1", "tuple_helpers.MB1", "literal_rows.LR2", "literal_rows.LR3", "pipeline_types.PT1", "pipeline_types.PT2", "pipeline_types.PW1", "pipeline_types.LD1", "pipeline_types.IR1", "pipeline_types.IR2", "lower_ident.LK0", "lower_ident.LK1", "lower_ident.LK2", "operator_tpl.TP4", "operator_tpl.TP4v")
+        or name in ("tuple_helpers.TE1", "tuple_helpers.TM1", "tuple_helpers.TZ1", "tuple_helpers.EQ1", "tuple_helpers.EQ2", "tuple_helpers.TI1", "tuple_helpers.MB1", "literal_rows.LR2", "literal_rows.LR3", "literal_rows.LR3i", "pipeline_types.PT1", "pipeline_types.PT2", "pipeline_types.PW1", "pipeline_types.LD1", "pipeline_types.IR1", "pipeline_types.IR2", "lower_ident.LK0", "lower_ident.LK1", "lower_ident.LK2", "operator_tpl.TP4", "operator_tpl.TP4v")
 
 
 _ALL_UNITS = ["take_range", "sort_take", "split_order", "window_frame", "dialect_select", "ident_quote", "ids_names", "toposort", "rq_tables",
